@@ -445,6 +445,11 @@ fn replay(args: &[String]) -> i32 {
             }
         }
     }
+    if reproduced {
+        // reference-stage violation: there is no single reference output to compare a run with
+        println!("VIOLATION property={PROPERTY} replay={file}");
+        return 1;
+    }
     let log = match exec_plan(&exe, &plan, &scratch, true) {
         Ok(l) => l,
         Err(e) => {
